@@ -13,6 +13,7 @@ Eval vm_compute in ("RESULT", "rnum_value", map name_rnum bad_rnum_value).
 Eval vm_compute in ("RESULT", "number_tiles", number_tiles_ok).
 Eval vm_compute in ("RESULT", "number_of_u16", bad_number_of_u16).
 Eval vm_compute in ("RESULT", "number_of_digits", bad_number_of_digits).
+Eval vm_compute in ("RESULT", "number_of_string", bad_number_of_string).
 Eval vm_compute in ("RESULT", "reverse", map name_bond_kind bad_reverse).
 Eval vm_compute in ("RESULT", "order", map name_bond_kind bad_order).
 Eval vm_compute in ("RESULT", "directional", map name_bond_kind bad_directional).
